@@ -704,8 +704,10 @@ def main(tier: str, only: dict | None = None) -> int:
         "TLC, the Json module and the reflective exporter (ptverif/eqexport.py: walks "
         "dataclasses.fields, sorts sets and mapping entries canonically) are trusted",
         "hash seeds are sampled (4 quick / 16 thorough), not exhausted",
-        "loopy translation units are compared by loopy's own persistent key; "
-        "pymbolic expressions by their dataclass fields",
+        "loopy translation units are identified by the digest of an order-preserving, "
+        "set-sorting dump of their kernels (not by a persistent-hash key, which could be "
+        "contaminated by digests cached by the key builder under test); pymbolic "
+        "expressions by their dataclass fields",
         "DataWrapper: StructEq compares the wrapped data by identity of the data object",
     ]
     return run.finish()
